@@ -89,6 +89,7 @@ type c19World struct {
 	dir   bus.Server
 	eps   map[string]*c19Endpoint
 	names []string // service names registered
+	floor map[string]int64
 }
 
 func newC19World(addrs []string, gors []string) (*c19World, error) {
@@ -135,13 +136,21 @@ func (w *c19World) close() {
 }
 
 // settle waits (bounded) until no connection of an earlier session is left
-// on the endpoints and returns the (normally zero) baseline.
+// on the endpoints and returns the baseline.  Connections leaked by an earlier
+// schedule (already reported there) never go away: they become the new floor,
+// so that the wait is paid once.
 func (w *c19World) settle() map[string]int64 {
-	zero := map[string]int64{}
-	for a := range w.eps {
-		zero[a] = 0
+	if w.floor == nil {
+		w.floor = map[string]int64{}
+		for a := range w.eps {
+			w.floor[a] = 0
+		}
 	}
-	return w.waitLive(zero)
+	got := w.waitLive(w.floor)
+	for a, n := range got {
+		w.floor[a] = n
+	}
+	return got
 }
 
 // waitLive waits (bounded) until the server-side live connection count of
